@@ -28,7 +28,7 @@ Use different mechanisms / code sites for the different mutants.
 For each mutant also write a DEMONSTRATION: a Go test (package kcp, e.g. zz_demo_test.go, placed in the worktree root while you run it) or small program that FAILS with the change applied and PASSES on the unchanged tree, deterministically if at all possible (you may drive internal types directly since the test is in package kcp).
 
 Environment (no network): in every shell call first run
-  export GOFLAGS=-mod=mod GOPROXY=off GOSUMDB=off
+  export GOFLAGS=-mod=mod GOPROXY=off      (do NOT set GOSUMDB=off: it blocks the switch to the cached go1.24.2 toolchain)
 `go` works offline inside the worktree. Run single tests with `go test -vet=off -count=1 -run 'TestName' .`
 The FULL existing suite takes 4-6 minutes and uses fixed UDP ports, so it must be serialised across agents — run it ONLY like this, and at most twice per mutant:
   flock /tmp/kcp-suite.lock go test -vet=off -count=1 -timeout 25m ./... 2>&1 | tail -15
